@@ -545,3 +545,36 @@ def minted_execution_names_are_validated(chk, ctx):
                        message="a name containing ':' yields an ARN that every consumer (record re-creation, EXPRESS details, the back stop, notifications) splits into a different state "
                                "machine and execution name; the REST API refuses the same name as InvalidName")
     chk.floor("C17.R9", n, 3, "places that mint an execution ARN")
+
+
+# ---------------------------------------------------------------------------------------------------------------------
+# C16.R7 (D75, open, one key per site): every enforcement point of the 262144-character data quota measures the same thing, the JSON text. The API
+# and the task-reply check measure the text they received; a point inside the engine that has only the value must serialise it compactly
+# (separators=(",", ":"), ensure_ascii=False) or it measures a padded, escaped re-rendering: a value exactly at the limit is accepted by the API
+# and then fails its first state.
+def quota_measures_the_json_text(chk, ctx):
+    n = 0
+    for mname in ("state_engine", "task_dispatcher", "rest_api", "rest_api_asyncio"):
+        m = ctx.mod(mname)
+        for q, f in sorted(m.funcs.items()):
+            for c in _walk_no_nested(f.node):
+                if not (isinstance(c, ast.Compare) and any(isinstance(x, ast.Name) and x.id == "MAX_DATA_LENGTH" for x in ast.walk(c))):
+                    continue
+                lens = [x for x in ast.walk(c) if isinstance(x, ast.Call) and callname(x) == "len" and x.args and isinstance(x.args[0], ast.Name)]
+                if not lens:
+                    continue
+                n += 1
+                v = lens[0].args[0].id
+                defs = [d for d in name_defs(f, v) if isinstance(d, ast.Assign) and d.lineno < c.lineno]      # the definitions that can reach the comparison
+                dumps = [d for d in defs if isinstance(d.value, ast.Call) and callname(d.value) in ("json.dumps", "self.json.dumps")]
+                if not dumps:
+                    chk.ob("C16.R7", "%s measures the text it received (`%s`)" % (q, v), True, "", nontrivial=False)
+                    continue
+                for d in dumps:
+                    kw = {k.arg: k.value for k in d.value.keywords}
+                    compact = "separators" in kw and norm(kw["separators"]).replace(" ", "") in ("(',',':')", "[',',':']") and const(kw.get("ensure_ascii")) is False
+                    chk.ob("C16.R7", "%s measures the compact JSON text of the value" % q, compact, norm(d),
+                           key="%s | the quota is applied to `%s`: the default rendering pads every separator and escapes non-ASCII characters" % (q, norm(d)), where=m.line(d),
+                           message="StartExecution accepts an input of exactly 262144 characters (it counts the text); the first state's output check re-serialises the value with "
+                                   "', ' / ': ' separators and \\uXXXX escapes and fails the execution with States.DataLimitExceeded: values exactly at the limit are not accepted")
+    chk.floor("C16.R7", n, 6, "enforcement points of the data quota")
